@@ -17,7 +17,9 @@ RULE = ('cases = (entry point, missing pattern, None/NaN, dtype, score column, o
         'n_jobs) on seeded random tables; patterns none / left only / right only / both / all left / '
         'all right / all both are enumerated systematically for every entry point (6 joins, 5 '
         'filter_tables, filter_pair, filter_candset, apply_matcher). Each case runs the call with '
-        'allow_missing False and True. Non-trivial = at least one row is missing on some side; '
+        'allow_missing False and True; mv_big shards use 45-129 rows per side (missing cross products '
+        'beyond 2**11 and 2**13 rows); in 12 % of the cases the join attribute is also the key of the '
+        'side without missing values. Non-trivial = at least one row is missing on some side; '
         'distinct = (entry point, pattern, seed).')
 ASSUMPTIONS = ['py_stringmatching tokenizers are trusted']
 SHARD_TIMEOUT = {'quick': 600, 'thorough': 3600}
